@@ -410,12 +410,20 @@ fn cases(tier: Tier) -> Vec<Case> {
         for reg in [Reg::Add, Reg::Ty(1)] {
             let tree = vec![root, Node { role: 1, parent: Some(0), reg, outside: false, outside_stops: false }];
             for cause in [Cause::StopClient, Cause::LastDrop] {
-                for mb in [Mailbox::U, Mailbox::B(1)] {
+                for mb in [Mailbox::U, Mailbox::B(0), Mailbox::B(1)] {
                     v.push(Case {
                         desc: format!("lifetime [held by the parent's child list only, parent restarted first] reg={reg:?} cause={cause:?} mailbox={}", mb.name()),
                         exec: ExecCfg { horizon: 30, ..ExecCfg::default() },
                         bound: None,
                         scene: Box::new(S { nodes: tree.clone(), cause, bcasts: vec![(1, 601)], mailbox: mb, pid: "C05", restart_root: true, slow_stop: None, child_timers: false }),
+                    });
+                    // ... and through a burst of broadcasts from the parent (more than a small
+                    // bounded mailbox of the child has room for), without any restart
+                    v.push(Case {
+                        desc: format!("lifetime [held by the parent's child list only, burst of broadcasts] reg={reg:?} cause={cause:?} mailbox={}", mb.name()),
+                        exec: ExecCfg { horizon: 30, ..ExecCfg::default() },
+                        bound: None,
+                        scene: Box::new(S { nodes: tree.clone(), cause, bcasts: vec![(1, 601), (1, 603), (1, 604), (1, 605)], mailbox: mb, pid: "C05", restart_root: false, slow_stop: None, child_timers: false }),
                     });
                 }
             }
